@@ -189,7 +189,7 @@ def run_engine(d, seed, n, events, canon=False, only=-1, slow=1):
            "-only", str(only), "-slow", str(slow)]
     if canon:
         cmd.append("-canon")
-    q = C.run(cmd, cwd=d, timeout=3600)
+    q = C.run(cmd, cwd=d, timeout=C.engine_timeout())
     if q.returncode != 0:
         return None, None, (q.stdout or "")[-2000:]
     return open(fin).read().splitlines(), open(fimpl).read().splitlines(), None
